@@ -18,6 +18,7 @@ from vf.core import fs
 from extract import lincomb as extract_lincomb
 from extract import lincomb_front as extract_front
 from extract import broadcast as extract_broadcast
+from extract import opfront as extract_opfront
 
 RULE = ('lincomb: enumerated regimes(size vs thresholds) x dtype x layout x 5 alias patterns x '
         'scalar classes for a and b, values on the dyadic grid k/8; element ops: operator x '
@@ -365,6 +366,19 @@ def EXPECTED_BRANCHES(ctx):
                 for f in ('setreal', 'setimag')]
         exp += ['ipowroute/{}/{}'.format(cls, r) for r in ('generic', 'nppower')]
     exp += ['ipowroute/generic/generic', 'ipowroute/generic/raises']
+    ops12 = [n for n, _ in OPFRONT_OPS]
+    for kind in ('foreign', 'uncoercible', 'nofield', 'nofield-scalar', 'element', 'scalar', 'arraylike'):
+        exp += ['opfront/{}/{}'.format(kind, op) for op in ops12]
+    exp += ['opfront/priority/' + op for op in HP_DELEGATE]
+    exp += ['opfront/noone/' + op for op in ('add', 'radd', 'sub', 'rsub', 'rtruediv', 'iadd', 'isub')]
+    exp += ['reach/options/' + n for n in (
+        'rn4_warr', 'rn4_wconst', 'rn4_exp1', 'rn4_expinf', 'rn4_inner', 'rn4_norm', 'rn4_dist',
+        'cn3_warr', 'rn2x3', 'pow_op', 'pow_tuple', 'mul_op', 'ps_wconst', 'ps_warr', 'ps_exp1',
+        'discr_w', 'discr_exp', 'mini')]
+    exp += ['reach/mini-defaults']
+    exp += ['reach/index/' + n for n in ('rn6', 'cn5', 'int6', 'rn3x4', 'rn6_warr', 'discr6', 'discr3x4')]
+    exp += ['reach/pindex/' + n for n in ('power3', 'mixed', 'nested', 'cpower')]
+    exp += ['reach/preal/' + n for n in ('cpower', 'rpower', 'cmixed', 'cnested')]
     exp += ['stmt/coerced/{}/list'.format(op) for op in ('rsubE', 'addE', 'subE', 'mulE', 'rdivE',
                                                          'divE', 'iaddE', 'isubE')]
     exp += ['stmt/coerced/{}/array'.format(op) for op in ('addE', 'subE', 'mulE', 'divE', 'iaddE',
@@ -1478,6 +1492,569 @@ def run_overrides(ctx):
 
 
 # ---------------------------------------------------------------------------
+# ROUND 5 "reach" strata: paths of the anchored source that the covmap showed no stream entered
+# (operator front tests, element lincomb / __copy__ / __deepcopy__ / ==, indexing get / set,
+# ProductSpaceElement real / imag / conj / asarray, space construction options, ** and *,
+# a user-defined LinearSpace on the base-class defaults). Oracle only (exact, independent of the
+# model); the operator-front routes are compared with the model too (run_opfront).
+
+def _ex(x):
+    return exact_list(flat(x))
+
+
+class _HighPriority(object):
+    """A foreign operand that outranks ODL elements: every operator must delegate to it."""
+    __array_priority__ = 1e9
+
+    def _mk(name):  # noqa
+        def f(self, other):
+            return ('hp', name, other)
+        return f
+    __add__ = _mk('__add__')
+    __radd__ = _mk('__radd__')
+    __sub__ = _mk('__sub__')
+    __rsub__ = _mk('__rsub__')
+    __mul__ = _mk('__mul__')
+    __rmul__ = _mk('__rmul__')
+    __truediv__ = _mk('__truediv__')
+    __rtruediv__ = _mk('__rtruediv__')
+
+
+def mini_spaces():
+    """A user-defined LinearSpace with only `element`, `_lincomb` (and the field): everything
+    else runs on the base-class defaults of odl/set/space.py. `NoOne` has `one = None`."""
+    import odl
+    from odl.set.space import LinearSpace, LinearSpaceElement
+
+    class MiniElem(LinearSpaceElement):
+        def __init__(self, space, arr):
+            LinearSpaceElement.__init__(self, space)
+            self.arr = arr
+
+        def asarray(self):
+            return self.arr
+
+    class MiniSpace(LinearSpace):
+        def __init__(self, n):
+            LinearSpace.__init__(self, odl.RealNumbers())
+            self.n = n
+
+        def element(self, inp=None):
+            if inp is None:
+                return MiniElem(self, np.full(self.n, 77.0))
+            if isinstance(inp, MiniElem) and inp.space == self:
+                return inp
+            arr = np.array(inp, dtype=float)
+            if arr.shape != (self.n,):
+                raise ValueError('bad shape')
+            return MiniElem(self, arr)
+
+        def _lincomb(self, a, x1, b, x2, out):
+            out.arr[:] = a * x1.arr + b * x2.arr
+
+        def _dist(self, x1, x2):
+            return float(np.abs(x1.arr - x2.arr).max())
+
+        def __eq__(self, other):
+            return type(other) is type(self) and other.n == self.n
+
+        def __hash__(self):
+            return hash((type(self).__name__, self.n))
+
+    class NoOne(MiniSpace):
+        one = None
+
+    return MiniSpace, NoOne
+
+
+OPFRONT_OPS = [
+    ('add', lambda x, o: x + o), ('radd', lambda x, o: x.__radd__(o)),
+    ('sub', lambda x, o: x - o), ('rsub', lambda x, o: x.__rsub__(o)),
+    ('mul', lambda x, o: x * o), ('rmul', lambda x, o: x.__rmul__(o)),
+    ('truediv', lambda x, o: x / o), ('rtruediv', lambda x, o: x.__rtruediv__(o)),
+    ('iadd', lambda x, o: x.__iadd__(o)), ('isub', lambda x, o: x.__isub__(o)),
+    ('imul', lambda x, o: x.__imul__(o)), ('itruediv', lambda x, o: x.__itruediv__(o)),
+]
+HP_DELEGATE = {'add': '__radd__', 'radd': '__add__', 'sub': '__rsub__', 'rsub': '__sub__',
+               'mul': '__rmul__', 'rmul': '__mul__', 'truediv': '__rtruediv__',
+               'rtruediv': '__truediv__'}
+
+
+def opfront_observe(x, other, fn):
+    """Outcome class of one operator call on the real code: 'notimpl' (NotImplemented returned),
+    'typeerror', 'delegated:<method>' (a high-priority operand's method was called), 'element'
+    (an element of x's space came back), 'err:<Type>' otherwise."""
+    try:
+        r = fn(x, other)
+    except TypeError:
+        return 'typeerror', None
+    except Exception as e:  # noqa
+        return 'err:' + type(e).__name__ + ':' + str(e)[:60], None
+    if r is NotImplemented:
+        return 'notimpl', None
+    if isinstance(r, tuple) and len(r) == 3 and r[0] == 'hp':
+        return 'delegated:' + r[1], r
+    try:
+        if r in x.space:
+            return 'element', r
+    except Exception:  # noqa
+        pass
+    return 'other:' + type(r).__name__, r
+
+
+def run_opfront(ctx):
+    """Operands that must NOT reach a writing branch: foreign elements, uncoercible array-likes,
+    spaces without a field, a space without `one`, operands that outrank the element
+    (`__array_priority__`). Oracle: no operand is modified, nothing but NotImplemented / TypeError /
+    the delegate's answer comes back. The outcome class is also what the model's `opFront`
+    predicts (driver op `opfront`)."""
+    import odl
+    rng = ctx.rng
+    MiniSpace, NoOne = mini_spaces()
+    pairs = [('rn3', odl.rn(3), odl.rn(4)), ('cn3', odl.cn(3), odl.rn(3)),
+             ('discr', odl.uniform_discr(0, 1, 3), odl.rn(3)),
+             ('pspace', odl.ProductSpace(odl.rn(2), odl.rn(3)), odl.rn(5)),
+             ('power', odl.ProductSpace(odl.rn(2), 2), odl.rn(3)),
+             ('mini', MiniSpace(3), odl.rn(3))]
+    lines, batch = [], []
+
+    def add(sname, kind, opname, x, other, fn, snap_other=None):
+        X = _ex(x) if hasattr(x, 'space') and not sname.startswith('str') else list(x.asarray())
+        obs, r = opfront_observe(x, other, fn)
+        XP = _ex(x) if not sname.startswith('str') else list(x.asarray())
+        problems = []
+        if XP != X:
+            problems.append('self was modified although the operand cannot be combined')
+        if snap_other is not None and _ex(other) != snap_other:
+            problems.append('the foreign operand was modified')
+        if kind in ('element', 'scalar', 'arraylike'):
+            problems = []
+            if obs != 'element':
+                problems.append('a combinable operand was not accepted: ' + obs)
+            elif not opname.startswith('i') and XP != X:
+                problems.append('out-of-place operator modified self')
+        elif kind == 'priority':
+            if obs != 'delegated:' + HP_DELEGATE[opname]:
+                problems.append('an operand with higher __array_priority__ was not delegated to: ' + obs)
+            elif r[2] is not x:
+                problems.append('the delegate did not receive self')
+        elif obs not in ('notimpl', 'typeerror'):
+            problems.append('operator did not refuse the operand: ' + obs)
+        elif opname.startswith('i') and kind in ('foreign', 'uncoercible', 'noone') and obs != 'typeerror':
+            # in place there must be no silent fallback to `x = x + other`
+            problems.append('in-place operator answered NotImplemented instead of raising')
+        inplace = opname.startswith('i')
+        line = 'opfront op={} kind={}'.format(opname, kind)
+        batch.append((sname, kind, opname, obs, problems))
+        lines.append(line)
+
+    for sname, space, fspace in pairs:
+        for opname, fn in OPFRONT_OPS:
+            x = rand_elem(space, rng, nonzero=True) if sname != 'mini' else space.element([1, -2, 4])
+            fo = rand_elem(fspace, rng, nonzero=True)
+            add(sname, 'foreign', opname, x, fo, fn, _ex(fo))
+            add(sname, 'uncoercible', opname, x, rng.choice(['ab', [1, 2, 3, 4, 5, 6, 7], {}]), fn)
+            if opname in HP_DELEGATE:
+                add(sname, 'priority', opname, x, _HighPriority(), fn)
+            if sname != 'mini':
+                add(sname, 'element', opname, x.copy(), rand_elem(space, rng, nonzero=True), fn)
+                add(sname, 'scalar', opname, x.copy(), rng.choice([2, -4, 0.5]), fn)
+                add(sname, 'arraylike', opname, x.copy(), tolist(rand_elem(space, rng, nonzero=True)), fn)
+    # spaces without a field: every operator answers NotImplemented, also for own elements/scalars
+    ss = odl.tensor_space(3, dtype='U2')
+    for opname, fn in OPFRONT_OPS:
+        xs, ys = ss.element(['a', 'b', 'c']), ss.element(['d', 'e', 'f'])
+        add('str', 'nofield', opname, xs, ys, fn)
+        add('str', 'nofield-scalar', opname, xs, 2, fn)
+    # a space whose `one` is None: scalar addition has no unit to broadcast with
+    for opname, fn in OPFRONT_OPS:
+        if opname in ('add', 'radd', 'sub', 'rsub', 'rtruediv', 'iadd', 'isub'):
+            add('noone', 'noone', opname, NoOne(3).element([1, -2, 4]), 2.0, fn)
+    outs = core.run_driver('C01', lines)
+    for (sname, kind, opname, obs, problems), ans, line in zip(batch, outs, lines):
+        desc = {'kind': 'opfront', 'space': sname, 'operand': kind, 'op': opname}
+        ctx.case(('opfront', sname, kind, opname))
+        ctx.hit('opfront/{}/{}'.format(kind, opname))
+        if problems:
+            ctx.violation('operator front op={} operand={} space={}'.format(opname, kind, sname),
+                          '; '.join(problems)[:300], desc)
+        # the model predicts the route of the method itself; Python turns a NotImplemented of
+        # both operands' methods into a TypeError, which the binary-operator forms observe
+        if ans.startswith('ok route='):
+            route = ans[len('ok route='):]
+            ok = (route == obs) or (route == 'notimpl' and obs == 'typeerror' and
+                                    opname in ('add', 'sub', 'mul', 'truediv'))
+            if not ok:
+                ctx.disagree(desc, obs, ans)
+        else:
+            ctx.disagree(desc, obs, ans)
+
+
+def run_reach(ctx):
+    import copy as _copy
+    import odl
+    rng = ctx.rng
+    MiniSpace, NoOne = mini_spaces()
+
+    def viol(key, problems, desc):
+        if problems:
+            ctx.violation(key, '; '.join(problems)[:400], dict(desc, kind='reach'))
+
+    # --- S2: element.lincomb, __copy__, __deepcopy__, ==, != ; spaces built with ** and * and
+    # with construction options (weighting / exponent / custom inner, norm, dist): arithmetic
+    # must not depend on them
+    w = np.array([1.0, 2.0, 0.5, 4.0])
+    opt_spaces = [
+        ('rn4_warr', odl.rn(4, weighting=w)), ('rn4_wconst', odl.rn(4, weighting=2.5)),
+        ('rn4_exp1', odl.rn(4, exponent=1.0)), ('rn4_expinf', odl.rn(4, exponent=float('inf'))),
+        ('rn4_inner', odl.rn(4, inner=lambda a, b: float(np.vdot(b.data, a.data)))),
+        ('rn4_norm', odl.rn(4, norm=lambda a: float(np.abs(a.data).sum()))),
+        ('rn4_dist', odl.rn(4, dist=lambda a, b: float(np.abs(a.data - b.data).max()))),
+        ('cn3_warr', odl.cn(3, weighting=[1.0, 2.0, 3.0])),
+        ('rn2x3', odl.rn((2, 3))),
+        ('pow_op', odl.rn(3) ** 2), ('pow_tuple', odl.rn(2) ** (2, 2)), ('mul_op', odl.rn(2) * odl.rn(3)),
+        ('ps_wconst', odl.ProductSpace(odl.rn(2), odl.rn(3), weighting=2.0)),
+        ('ps_warr', odl.ProductSpace(odl.rn(2), 3, weighting=[1.0, 2.0, 3.0])),
+        ('ps_exp1', odl.ProductSpace(odl.rn(2), 2, exponent=1.0)),
+        ('discr_w', odl.uniform_discr(0, 1, 4, weighting=3.0)),
+        ('discr_exp', odl.uniform_discr(0, 1, 4, exponent=1.0)),
+        ('mini', MiniSpace(4)),
+    ]
+    for sname, space in opt_spaces:
+        mini = sname == 'mini'
+        mk = (lambda: space.element([rng.randint(-8, 8) / 4.0 for _ in range(4)])) if mini else \
+            (lambda: rand_elem(space, rng))
+        for alias, ids in ALIASES.items():
+            a, b = rng.choice([0, 1, -1, 2, -0.5]), rng.choice([0, 1, -1, 0.25])
+            el = {k: mk() for k in set(ids)}
+            x1, x2, out = el[ids[0]], el[ids[1]], el[ids[2]]
+            X1, X2 = _ex(x1), _ex(x2)
+            problems = []
+            try:
+                # the element method: out.lincomb(a, x1, b, x2) == space.lincomb(..., out=out)
+                ret = out.lincomb(a, x1, b, x2)
+                exp = oracle_elem('lincomb', X1, X2, fval(a), fval(b))
+                if ret is not out:
+                    problems.append('element.lincomb did not return self')
+                if _ex(out) != exp:
+                    problems.append('element.lincomb result is not a*x1+b*x2 entry-wise')
+                if x1 is not out and _ex(x1) != X1 or x2 is not out and _ex(x2) != X2:
+                    problems.append('element.lincomb modified an operand')
+                for how, cp in (('copy.copy', _copy.copy(out)), ('copy.deepcopy', _copy.deepcopy(out))):
+                    if cp is out or _ex(cp) != exp or cp not in space:
+                        problems.append(how + ' is not an independent equal element')
+                    elif not mini and any(_shares(u, v) for u in leaf_parts(cp) for v in leaf_parts(out)):
+                        problems.append(how + ' shares memory with the original')
+                    elif not (cp == out) or (cp != out):
+                        problems.append(how + ' does not compare equal to the original')
+                cp = out.copy()
+                cp += out
+                if any(v != (0, 0) for v in exp) and (cp == out or not (cp != out)):
+                    problems.append('2*x compares equal to x != 0')
+                if _ex(out) != exp:
+                    problems.append('x.copy() += x modified x')
+                if out == 1 or out == rand_elem(odl.rn(7), rng):
+                    problems.append('element equal to a foreign object')
+            except Exception as e:  # noqa
+                problems.append('err:' + type(e).__name__ + ':' + str(e)[:120])
+            ctx.case(('reach-lincomb', sname, alias))
+            ctx.hit('reach/options/' + sname)
+            viol('element.lincomb/copy/== space={} alias={}'.format(sname, alias), problems,
+                 {'space': sname, 'alias': alias, 'a': str(a), 'b': str(b)})
+    # base-class defaults on the user-defined space: zero(), set_zero, assign, copy, neg, scalar *
+    ms = MiniSpace(4)
+    problems = []
+    try:
+        x = ms.element([1, -2, 0.5, 4])
+        z = ms.zero()
+        if list(z.arr) != [0, 0, 0, 0]:
+            problems.append('default zero() is not zero (junk of element() leaked): {}'.format(z.arr))
+        y = (-x) * 2 + x - ms.element([1, 1, 1, 1])
+        if list(y.arr) != [-2, 1, -1.5, -5] or list(x.arr) != [1, -2, 0.5, 4]:
+            problems.append('arithmetic on the base-class defaults wrong: {}'.format(y.arr))
+        c = x.copy()
+        c.set_zero()
+        if list(c.arr) != [0, 0, 0, 0] or list(x.arr) != [1, -2, 0.5, 4]:
+            problems.append('copy()/set_zero() on the defaults wrong')
+        c.assign(x)
+        c /= 2
+        if list(c.arr) != [0.5, -1, 0.25, 2] or list(x.arr) != [1, -2, 0.5, 4]:
+            problems.append('assign / scalar division on the defaults wrong')
+        for bad in (lambda: x * x, lambda: x + 1, lambda: ms.one()):
+            try:
+                bad()
+                problems.append('an operation without implementation did not raise')
+            except odl.set.space.LinearSpaceNotImplementedError:
+                pass
+        if list(x.arr) != [1, -2, 0.5, 4]:
+            problems.append('refused operation modified x')
+    except Exception as e:  # noqa
+        problems.append('err:' + type(e).__name__ + ':' + str(e)[:120])
+    ctx.case(('reach-mini',))
+    ctx.hit('reach/mini-defaults')
+    viol('base-class defaults on a user-defined LinearSpace', problems, {'space': 'mini'})
+
+    # --- S3: indexing. get: value / sub-element; set: scalar, array-like, element; product spaces:
+    # integer, slice, list, tuple indices, broadcasting of one base element over a power space
+    def fr(v):
+        return (Fraction(v), Fraction(0))
+
+    idx_spaces = [('rn6', odl.rn(6)), ('cn5', odl.cn(5)), ('int6', odl.tensor_space(6, dtype='int64')),
+                  ('rn3x4', odl.rn((3, 4))), ('rn6_warr', odl.rn(6, weighting=[1, 2, 3, 4, 5, 6])),
+                  ('discr6', odl.uniform_discr(0, 1, 6)), ('discr3x4', odl.uniform_discr([0, 0], [1, 1], (3, 4)))]
+    for sname, space in idx_spaces:
+        for rep in range(1 if ctx.quick else 3):
+            x = rand_elem(space, rng)
+            A = np.array(x.asarray(), copy=True)
+            nd = A.ndim
+            problems = []
+            try:
+                sl = slice(rng.randint(0, 1), rng.randint(2, A.shape[0]), rng.choice([1, 2]))
+                i0 = rng.randrange(A.shape[0])
+                gets = [i0 if nd == 1 else (i0, rng.randrange(A.shape[1])), sl, slice(None),
+                        [0, A.shape[0] - 1]] + ([(slice(None), 1), (sl, slice(1, 3))] if nd == 2 else [])
+                for ix in gets:
+                    g = x[ix]
+                    want = A[ix]
+                    if np.isscalar(want):
+                        if exact_list([g]) != exact_list([want]):
+                            problems.append('x[{}] wrong value'.format(ix))
+                    else:
+                        if exact_list(np.asarray(g)) != exact_list(want) or np.asarray(g).shape != want.shape:
+                            problems.append('x[{}] wrong values / shape'.format(ix))
+                        # arithmetic on the sub-element is arithmetic on its own space
+                        h = g + g
+                        if exact_list(np.asarray(h)) != exact_list(want + want):
+                            problems.append('x[{}] + x[{}] wrong'.format(ix, ix))
+                        if exact_list(x.asarray()) != exact_list(A):
+                            problems.append('x[{}] + x[{}] modified x'.format(ix, ix))
+                # set
+                is_int = np.issubdtype(A.dtype, np.integer)
+                sc = rng.choice([0, 3, -2]) if is_int else rng.choice([0, 0.5, -2.25])
+                for ix, val in [(i0 if nd == 1 else (i0, 0), sc), (sl, sc), (slice(None), sc),
+                                (sl, 'arr'), (slice(None), 'elem'), (slice(None), 'self'),
+                                ([0, A.shape[0] - 1], 'arr')]:
+                    y = rand_elem(space, rng)
+                    Y = np.array(y.asarray(), copy=True)
+                    B = A.copy()
+                    if val == 'arr':
+                        v = Y[ix]
+                        arg = v.tolist()
+                    elif val == 'elem':
+                        v, arg = Y, y
+                    elif val == 'self':
+                        v, arg = A.copy(), x
+                    else:
+                        v, arg = val, val
+                    B[ix] = v
+                    x[ix] = arg
+                    if exact_list(x.asarray()) != exact_list(B):
+                        problems.append('x[{}] = {} : entries wrong'.format(ix, val))
+                    if exact_list(y.asarray()) != exact_list(Y):
+                        problems.append('x[{}] = y modified y'.format(ix))
+                    A = B
+            except Exception as e:  # noqa
+                problems.append('err:' + type(e).__name__ + ':' + str(e)[:120])
+            ctx.case(('reach-index', sname))
+            ctx.hit('reach/index/' + sname)
+            viol('indexing get/set space={}'.format(sname), problems, {'space': sname})
+
+    pidx = [('power3', odl.ProductSpace(odl.rn(3), 3)), ('mixed', odl.ProductSpace(odl.rn(2), odl.rn(3), odl.rn(2))),
+            ('nested', odl.ProductSpace(odl.ProductSpace(odl.rn(2), 2), 3)),
+            ('cpower', odl.ProductSpace(odl.cn(2), 3))]
+    for sname, P in pidx:
+        for rep in range(1 if ctx.quick else 3):
+            x = rand_elem(P, rng)
+            parts = [_ex(p) for p in x]
+            problems = []
+            try:
+                if x[1] is not x.parts[1] or _ex(x[-1]) != parts[-1]:
+                    problems.append('x[i] is not the i-th part')
+                for ix in (slice(0, 2), slice(None, None, 2), [2, 0], (slice(0, 2),), ([0, 2],)):
+                    g = x[ix]
+                    sel = ix[0] if isinstance(ix, tuple) else ix
+                    want = [parts[i] for i in sel] if isinstance(sel, list) else parts[sel]
+                    if [_ex(p) for p in g] != want:
+                        problems.append('x[{}] wrong parts'.format(ix))
+                    # the sub-element shares the part objects: arithmetic out of place leaves x
+                    h = g + g
+                    if [_ex(p) for p in h] != [oracle_elem('add', q, q, None, None) for q in want]:
+                        problems.append('x[{}] + x[{}] wrong'.format(ix, ix))
+                    if [_ex(p) for p in x] != parts:
+                        problems.append('x[{}] + x[{}] modified x'.format(ix, ix))
+                try:
+                    # (observation, not part of C01: on the unchanged tree this raises ValueError
+                    # 'no spaces provided, cannot deduce field' instead of giving an empty element)
+                    x[()]
+                except ValueError:
+                    pass
+                if [_ex(p) for p in x] != parts:
+                    problems.append('x[()] modified x')
+                if sname != 'nested':
+                    if exact_list([x[1, 0]]) != [parts[1][0]]:
+                        problems.append('x[1, 0] wrong')
+                    col = x[:, 1]
+                    if [_ex(p) for p in col] != [[q[1]] for q in parts]:
+                        problems.append('x[:, 1] wrong')
+                    col2 = x[[0, 2], 0]
+                    if [_ex(p) for p in col2] != [[parts[0][0]], [parts[2][0]]]:
+                        problems.append('x[[0, 2], 0] wrong')
+                else:
+                    if _ex(x[1, 0]) != _ex(x.parts[1].parts[0]) or exact_list([x[2, 1, 0]]) != [parts[2][2]]:
+                        problems.append('nested x[i, j] / x[i, j, k] wrong')
+                    sub = x[0:2, 1]
+                    if [_ex(p) for p in sub] != [q[2:4] for q in parts[0:2]]:
+                        problems.append('nested x[0:2, 1] wrong')
+                try:
+                    x['a']
+                    problems.append('bad index type accepted')
+                except TypeError:
+                    pass
+                # --- set
+                y = rand_elem(P, rng)
+                yp = [_ex(p) for p in y]
+                x[0] = y[0]
+                parts[0] = yp[0]
+                x[1:] = [y[1], tolist(y[2])]
+                parts[1:] = yp[1:]
+                if [_ex(p) for p in x] != parts or [_ex(p) for p in y] != yp:
+                    problems.append('x[0] = part / x[1:] = [parts] wrong or modified the source')
+                x[[2, 0]] = [y[0], y[2]]
+                parts[2], parts[0] = yp[0], yp[2]
+                if [_ex(p) for p in x] != parts:
+                    problems.append('x[[2, 0]] = [...] wrong')
+                x[1] = 0.5 if sname != 'cpower' else 2j
+                parts[1] = [(Fraction(1, 2), Fraction(0)) if sname != 'cpower' else (Fraction(0), Fraction(2))] * len(parts[1])
+                if [_ex(p) for p in x] != parts:
+                    problems.append('x[1] = scalar wrong')
+                if P.is_power_space and sname != 'nested':
+                    b = rand_elem(P[0], rng)
+                    x[:] = b
+                    parts = [_ex(b)] * len(P)
+                    if [_ex(p) for p in x] != parts:
+                        problems.append('x[:] = base element (broadcast) wrong')
+                    x[0:2] = x[2]
+                    if [_ex(p) for p in x] != parts:
+                        problems.append('x[0:2] = own part wrong')
+                    x[1, 0] = -3
+                    parts = [list(q) for q in parts]
+                    parts[1][0] = fr(-3)
+                    x[:, 1] = 7
+                    for q in parts:
+                        q[1] = fr(7)
+                    if [_ex(p) for p in x] != parts:
+                        problems.append('x[1, 0] = s / x[:, 1] = s wrong')
+                x[()] = 5
+                if [_ex(p) for p in x] != parts:
+                    problems.append('x[()] = 5 wrote something')
+                try:
+                    x[0:2] = [y[0]]
+                    problems.append('length mismatch accepted')
+                except ValueError:
+                    if [_ex(p) for p in x] != parts:
+                        problems.append('refused assignment modified x')
+                try:
+                    x['a'] = 1
+                    problems.append('bad index type accepted in assignment')
+                except TypeError:
+                    pass
+            except Exception as e:  # noqa
+                problems.append('err:' + type(e).__name__ + ':' + str(e)[:120])
+            ctx.case(('reach-pindex', sname))
+            ctx.hit('reach/pindex/' + sname)
+            viol('product-space indexing get/set space={}'.format(sname), problems, {'space': sname})
+
+    # --- S4: ProductSpaceElement real / imag / conj / asarray
+    for sname, P in [('cpower', odl.ProductSpace(odl.cn(3), 2)), ('rpower', odl.ProductSpace(odl.rn(3), 2)),
+                     ('cmixed', odl.ProductSpace(odl.cn(2), odl.cn(3))),
+                     ('cnested', odl.ProductSpace(odl.ProductSpace(odl.cn(2), 2), 2))]:
+        x = rand_elem(P, rng)
+        X = _ex(x)
+        cplx = sname != 'rpower'
+        problems = []
+        try:
+            re, im, cj = x.real, x.imag, x.conj()
+            if _ex(re) != [(p[0], Fraction(0)) for p in X]:
+                problems.append('real wrong')
+            if _ex(im) != [(p[1], Fraction(0)) for p in X]:
+                problems.append('imag wrong')
+            if _ex(cj) != [(p[0], -p[1]) for p in X]:
+                problems.append('conj wrong')
+            if _ex(x) != X:
+                problems.append('real / imag / conj modified x')
+            if cplx and any(_shares(u, v) for u in leaf_parts(cj) for v in leaf_parts(x)):
+                problems.append('conj() shares memory with x')
+            if P.is_power_space and sname != 'cnested':
+                arr = x.asarray()
+                if exact_list(arr) != X or arr.shape != (2, 3) or exact_list(np.asarray(x)) != X:
+                    problems.append('asarray / __array__ wrong')
+                o = np.empty((2, 3), dtype=arr.dtype)
+                if x.asarray(out=o) is not o or exact_list(o) != X:
+                    problems.append('asarray(out=) wrong')
+            elif not P.is_power_space:
+                try:
+                    x.asarray()
+                    problems.append('asarray on a non-power space did not raise')
+                except ValueError:
+                    pass
+            # setters
+            rs = P.real_space if cplx else P
+            v = rand_elem(rs, rng)
+            V = _ex(v)
+            x.real = v
+            cur = [(q[0], p[1] if cplx else Fraction(0)) for p, q in zip(X, V)]
+            if _ex(x) != cur or _ex(v) != V:
+                problems.append('x.real = element wrong')
+            x.real = 2
+            cur = [(Fraction(2), p[1]) for p in cur]
+            if _ex(x) != cur:
+                problems.append('x.real = scalar wrong')
+            x.real = tolist(v)
+            cur = [(q[0], p[1]) for p, q in zip(cur, V)]
+            if _ex(x) != cur:
+                problems.append('x.real = nested list wrong')
+            if cplx:
+                x.imag = v
+                cur = [(p[0], q[0]) for p, q in zip(cur, V)]
+                if _ex(x) != cur:
+                    problems.append('x.imag = element wrong')
+                x.imag = -1
+                cur = [(p[0], Fraction(-1)) for p in cur]
+                if _ex(x) != cur:
+                    problems.append('x.imag = scalar wrong')
+                x.imag = tolist(v)
+                cur = [(p[0], q[0]) for p, q in zip(cur, V)]
+                if _ex(x) != cur:
+                    problems.append('x.imag = nested list wrong')
+                if P.is_power_space and sname == 'cpower':
+                    b = rand_elem(P.real_space[0], rng)
+                    x.real = b
+                    x.imag = tolist(b)
+                    cur = [(q[0], q[0]) for q in _ex(b) * 2]
+                    if _ex(x) != cur:
+                        problems.append('x.real / x.imag = one base element (broadcast) wrong')
+            else:
+                try:
+                    x.imag = v
+                    problems.append('imag setter on a real product space did not raise')
+                except ValueError:
+                    if _ex(x) != cur:
+                        problems.append('refused imag setter modified x')
+            if not P.is_power_space:
+                try:
+                    x.real = [1, 2, 3]
+                    problems.append('real setter with a wrong number of parts did not raise')
+                except ValueError:
+                    if _ex(x) != cur:
+                        problems.append('refused real setter modified x')
+        except Exception as e:  # noqa
+            problems.append('err:' + type(e).__name__ + ':' + str(e)[:120])
+        ctx.case(('reach-preal', sname))
+        ctx.hit('reach/preal/' + sname)
+        viol('ProductSpaceElement real/imag/conj/asarray space={}'.format(sname), problems, {'space': sname})
+
+
+# ---------------------------------------------------------------------------
 # malformed calls of LinearSpace.lincomb: rejected before anything is written
 
 def front_cases(ctx):
@@ -1825,7 +2402,9 @@ def regenerate(ctx):
                       ('extract(LinearSpace.lincomb checks -> Gen/LincombFront.lean)',
                        extract_front),
                       ('extract(_broadcast_arithmetic copy guard -> Gen/Broadcast.lean)',
-                       extract_broadcast)]:
+                       extract_broadcast),
+                      ('extract(LinearSpaceElement operator fronts -> Gen/OpFront.lean)',
+                       extract_opfront)]:
         try:
             changed = mod.regenerate()
             note = '; '.join(getattr(mod, 'BLAS_NOTE', []))
@@ -2025,6 +2604,8 @@ def run(ctx, deep=False):
             ctx.disagree(desc, {'res': R[:6], 'x': XP[:6], 'y': YP[:6]}, ans[:300])
     run_pmuldiv(ctx)
     run_overrides(ctx)
+    run_reach(ctx)
+    run_opfront(ctx)
     # --- malformed calls
     run_front(ctx)
     run_front_muldiv(ctx)
